@@ -427,6 +427,35 @@ def rule_traverse(prog):
                 out.add(b["d"], "every child is walked for itself (children are not merged before the walk)", False, c.loc(mc["sp"]),
                         "`a.%s(b)` on two child nodes keeps one of them: when both are present (an `if` with an `else`) only the first is "
                         "searched, whatever the walker looks for in the second is never found" % mc["m"], (kind, "merge"))
+    # ... nor is one child visited only where a sibling is absent (`if let Some(a) = &mut self.if_branch { .. } else if let Some(b) =
+    # &mut self.else_branch { .. }`): the second is skipped whenever the first exists
+    for b, kind in walkers(prog):
+        c = b["_crate"]
+
+        def child_field(e):
+            """name of the AST child field of the walked node that `e` reads (Option-typed, holding AST nodes)"""
+            for x in hir.nodes(e):
+                if x.get("k") == "Field":
+                    t_ = c.tstr(x["t"])
+                    if "Option<" in t_ and "ast::" in t_ and "Identifier" not in t_:
+                        return x["name"]
+            return None
+
+        for iff in hir.nodes(b["body"], "If"):
+            cond = hir.strip(iff["cond"])
+            if cond.get("k") != "LetExpr" or iff.get("else") is None:
+                continue
+            first = child_field(cond["init"])
+            if first is None or not any(v.endswith("Option::Some") for v in hir.pat_variants_all(cond["pat"])):
+                continue
+            for x in hir.nodes(iff["else"]):
+                inner = hir.strip(x.get("cond") or {}) if x.get("k") == "If" else {}
+                if inner.get("k") == "LetExpr":
+                    second = child_field(inner["init"])
+                    if second is not None and second != first:
+                        out.add(b["d"], "every child is walked for itself (a child is not visited only where its sibling is absent)", False,
+                                c.loc(x["sp"]), "`%s` is looked at in the `else` of the test for `%s`: when both exist (an `if` with an `else` "
+                                "branch) the second child is never visited" % (second, first), (kind, "merge"))
     for k in KINDS:
         if seen_kinds.get(k, 0) == 0:
             out.missing("walkers of kind " + k)
